@@ -1189,6 +1189,9 @@ def is_cstr_write(inner):
 def is_cstr_read(inner):
     """helper body that reads single bytes in a loop (until NUL)"""
     c = [t for t in inner if t[0] not in ("seekto",)]
+    # the loop may be preceded by single-byte reads (first byte read before a `while last != 0` loop)
+    while len(c) > 1 and c[0][0] == "a" and c[0][1] == 1:
+        c = c[1:]
     return len(c) == 1 and c[0][0] == "loop" and len(c[0][1]) >= 1 and all(x[0] == "a" and x[1] == 1 for x in c[0][1] if x[0] == "a") and any(x[0] == "a" for x in c[0][1])
 
 
@@ -1352,6 +1355,8 @@ def canon(toks, side):
                 out.append(("alt?", t[1], tuple(a2), tuple(b2)))
         elif k == "match":
             arms = tuple((p, tuple(canon(b, side))) for p, b in t[2])
+            if not any(b for _, b in arms):
+                continue          # a match without stream effect in any arm (e.g. on the result of a checked subtraction)
             if all(all(x[0] == "children" for x in b) for _, b in arms):
                 cs = set()
                 for _, b in arms:
